@@ -147,6 +147,17 @@ func main() {
 			if doYield {
 				n := rewriteYields(fset, af, info, relSite(*repo, names[i]), stats)
 				changed = changed || n > 0
+				if n > 0 {
+					// statements were moved into new function literals: comments inside function bodies would be printed at
+					// stale positions (and can break the syntax). Keep only what precedes the package clause (build constraints).
+					var keep []*ast.CommentGroup
+					for _, cg := range af.Comments {
+						if cg.End() < af.Package {
+							keep = append(keep, cg)
+						}
+					}
+					af.Comments = keep
+				}
 			}
 			if !changed {
 				continue
